@@ -52,6 +52,11 @@ EXPLANATION += (
     '(R-SPACE).'
 )
 
+EXPLANATION += (
+    ' Round 3: pointer values are never the positions of a '
+    'fancy-indexed store (R-IDIOM/pointer-scatter).'
+)
+
 RULE_TEXT = (
     "one obligation per (dispatcher, encoding member), per arm-"
     "distinctness relation, per cursor relation, per range step / slice "
